@@ -207,7 +207,9 @@ public:
    /// @since  1.34.1, 14.01.2020
    bool hasIntersection( const ContainerAdapter& other) const
    {
-      return common::hasIntersection( mDestCont, other.mDestCont);
+      // the values are not sorted: cannot use the merge-style comparison
+      return std::any_of( mDestCont.begin(), mDestCont.end(),
+         [&other]( const T& value) { return other.contains( value); });
    } // ContainerAdapter< std::deque< T>>::hasIntersection
 
    /// Returns a string with the values from the container.
@@ -323,7 +325,9 @@ public:
    /// @since  1.34.1, 14.01.2020
    bool hasIntersection( const ContainerAdapter& other) const
    {
-      return common::hasIntersection( mDestCont, other.mDestCont);
+      // the values are not sorted: cannot use the merge-style comparison
+      return std::any_of( mDestCont.begin(), mDestCont.end(),
+         [&other]( const T& value) { return other.contains( value); });
    } // ContainerAdapter< std::forward_list< T>>::hasIntersection
 
    /// Returns a string with the values from the container.
@@ -447,7 +451,9 @@ public:
    /// @since  1.34.1, 14.01.2020
    bool hasIntersection( const ContainerAdapter& other) const
    {
-      return common::hasIntersection( mDestCont, other.mDestCont);
+      // the values are not sorted: cannot use the merge-style comparison
+      return std::any_of( mDestCont.begin(), mDestCont.end(),
+         [&other]( const T& value) { return other.contains( value); });
    } // ContainerAdapter< std::list< T>>::hasIntersection
 
    /// Returns a string with the values from the container.
@@ -1176,7 +1182,9 @@ public:
    /// @since  1.34.1, 14.01.2020
    bool hasIntersection( const ContainerAdapter& other) const
    {
-      return common::hasIntersection( mDestCont, other.mDestCont);
+      // the values are not sorted: cannot use the merge-style comparison
+      return std::any_of( mDestCont.begin(), mDestCont.end(),
+         [&other]( const T& value) { return other.contains( value); });
    } // ContainerAdapter< std::unordered_multiset< T>>::hasIntersection
 
    /// Returns a string with the values from the container.
@@ -1295,7 +1303,9 @@ public:
    /// @since  1.34.1, 14.01.2020
    bool hasIntersection( const ContainerAdapter& other) const
    {
-      return common::hasIntersection( mDestCont, other.mDestCont);
+      // the values are not sorted: cannot use the merge-style comparison
+      return std::any_of( mDestCont.begin(), mDestCont.end(),
+         [&other]( const T& value) { return other.contains( value); });
    } // ContainerAdapter< std::unordered_set< T>>::hasIntersection
 
    /// Returns a string with the values from the container.
@@ -1425,7 +1435,9 @@ public:
    /// @since  1.34.1, 14.01.2020
    bool hasIntersection( const ContainerAdapter& other) const
    {
-      return common::hasIntersection( mDestCont, other.mDestCont);
+      // the values are not sorted: cannot use the merge-style comparison
+      return std::any_of( mDestCont.begin(), mDestCont.end(),
+         [&other]( const T& value) { return other.contains( value); });
    } // ContainerAdapter< std::vector< T>>::hasIntersection
 
    /// Returns a string with the values from the container.
